@@ -18,11 +18,11 @@ def empty():
 def gen_value(rng, kinds):
     k = rng.choice(kinds)
     if k == 'int':
-        return rng.randint(0, 40)
+        return 0 if rng.random() < 0.18 else rng.randint(0, 40)         # zero is the classic falsy extremum
     if k == 'neg':
         return -rng.randint(1, 40)
     if k == 'float':
-        return rng.choice([0.5, 1.25, -2.5, 7.125, 3.5, -0.75, 12.375]) + rng.randint(-3, 3)
+        return 0.0 if rng.random() < 0.1 else rng.choice([0.5, 1.25, -2.5, 7.125, 3.5, -0.75, 12.375]) + rng.randint(-3, 3)
     if k == 'text':
         return rng.choice(['x', 'abc', 'N/A', 'total'])
     if k == 'numtext':
